@@ -17,7 +17,6 @@ package jobs
 import (
 	"context"
 	"errors"
-	"math"
 	"reflect"
 	"sync"
 	"time"
@@ -242,7 +241,9 @@ func (pipeline *IncrementalPipeline) sync(job *job, ctx context.Context) (int, e
 							parallelisms = 1
 						}
 
-						psize := int(math.Round(float64(len(entities)) / float64(parallelisms)))
+						// chunk size rounded up: rounding to nearest left the tail of the batch without a worker
+						// (7 entities, 3 workers) or ran past the end of the batch (13 entities, 8 workers)
+						psize := (len(entities) + parallelisms - 1) / parallelisms
 						workResults := make([]presult, parallelisms)
 
 						local := func(workId int, lentities []*server.Entity, wg *sync.WaitGroup) {
@@ -275,10 +276,13 @@ func (pipeline *IncrementalPipeline) sync(job *job, ctx context.Context) (int, e
 						index := 0
 						for i := 0; i < parallelisms; i++ {
 							from := index
-							to := index + psize
+							if from > len(entities) {
+								from = len(entities)
+							}
+							to := from + psize
 
 							if to >= len(entities) {
-								to = index + (len(entities) - index)
+								to = len(entities)
 							}
 
 							chunk := make([]*server.Entity, to-from)
